@@ -307,20 +307,32 @@ def kani_unit(unit, tier):
 
 # ------------------------------------------------------------------ replay search
 
-def replay_search(pid, unit, obligation, seed):
-    """Look for a concrete failing input on the real code (tools/replay.py knows how, per unit)."""
+def bounded_search(pid, seed, tier):
+    """Bounded replay layer: concrete inputs through the real code and executable specifications
+    (tools/replay.py -> /verif/replay).  Returns dict(status, fails, bounds, wall)."""
     rp = os.path.join(ROOT, 'tools', 'replay.py')
+    t0 = time.time()
+    out = {'status': 'not-run', 'fails': [], 'bounds': [], 'wall': 0.0, 'cmd': ''}
     if not os.path.exists(rp):
-        return None
+        return out
+    cmd = [sys.executable, rp, 'search', '--property', pid, '--seed', str(seed), '--tier', tier]
+    out['cmd'] = ' '.join(cmd)
     try:
-        p = subprocess.run([sys.executable, rp, 'search', '--property', pid, '--unit', unit, '--obligation', obligation, '--seed', str(seed)],
-                           capture_output=True, text=True, timeout=900)
-        for line in p.stdout.split('\n'):
-            if line.startswith('FAILING-INPUT '):
-                return json.loads(line[len('FAILING-INPUT '):])
-    except (subprocess.TimeoutExpired, ValueError):
-        pass
-    return None
+        p = subprocess.run(cmd, capture_output=True, text=True, timeout=3000)
+    except subprocess.TimeoutExpired:
+        out['status'] = 'timeout'
+        return out
+    for line in p.stdout.split('\n'):
+        if line.startswith('FAILING-INPUT '):
+            try:
+                out['fails'].append(json.loads(line[len('FAILING-INPUT '):]))
+            except ValueError:
+                pass
+        elif line.startswith('BOUNDS '):
+            out['bounds'].append(line[len('BOUNDS '):])
+    out['status'] = {0: 'clean', 1: 'failing-input', 3: 'unavailable'}.get(p.returncode, 'error')
+    out['wall'] = time.time() - t0
+    return out
 
 
 # ------------------------------------------------------------------ main
@@ -337,6 +349,7 @@ def main():
     ap.add_argument('--rebaseline', action='store_true')
     ap.add_argument('--units')
     ap.add_argument('--no-canary', action='store_true')
+    ap.add_argument('--no-bounded', action='store_true')
     a = ap.parse_args()
     pid = a.property
     seed = int(os.environ.get('VERIF_SEED', '0') or 0)
@@ -364,39 +377,41 @@ def main():
 
     def do_unit(u):
         spec = UNITS['units'][u]
-        if spec['kind'] == 'verus':
-            r = verus_unit(u, a.tier)
-            c = None
-            if not a.no_canary:
-                c = canary_unit(u)
-            return u, r, c
-        return u, kani_unit(u, a.tier), None
+        try:
+            if spec['kind'] == 'verus':
+                r = verus_unit(u, a.tier)
+                c = None
+                if not a.no_canary:
+                    c = canary_unit(u)
+                return u, r, c
+            return u, kani_unit(u, a.tier), None
+        except (ex.AnchorLoss, rs.ScanError) as e:
+            msg = 'anchor loss: %s' % e
+        except Undecided as e:
+            msg = str(e)
+        # the unit could not be decided on this tree (lost anchor, construct outside the verifier's reach, ...)
+        stub = {'unit': u, 'kind': spec['kind'], 'broken': True, 'undecided': [msg.split('\n')[0][:600]], 'failed': {}, 'harnesses': [],
+                'meta': {'obligations': [], 'items': [], 'assumptions_scanned': [], 'assumptions_declared': [], 'map': [], 'lost_hints': []},
+                'cmd': '', 'wall': 0.0, 'detail': msg[:3000]}
+        return u, stub, None
 
     verus_units = [u for u in units if UNITS['units'][u]['kind'] == 'verus']
     kani_units = [u for u in units if UNITS['units'][u]['kind'] == 'kani']
-    try:
-        with cf.ThreadPoolExecutor(max_workers=4) as pool:
-            futs = {pool.submit(do_unit, u): u for u in verus_units}
-            kfuts = {}
-            # kani units run sequentially among themselves (shared target dir), concurrently with verus
-            def all_kani():
-                return [do_unit(u) for u in kani_units]
-            kf = pool.submit(all_kani)
-            for f in cf.as_completed(list(futs)):
-                u, r, c = f.result()
-                results[u] = r
-                if c:
-                    canaries[u] = c
-            for u, r, c in kf.result():
-                results[u] = r
-    except (ex.AnchorLoss, rs.ScanError) as e:
-        print('UNDECIDED property=%s anchor-loss: %s' % (pid, e))
-        write_evidence(pid, a.tier, seed, results, canaries, [], [], ['anchor loss: %s' % e], t_start, pspec, units)
-        sys.exit(2)
-    except Undecided as e:
-        print('UNDECIDED property=%s %s' % (pid, e))
-        write_evidence(pid, a.tier, seed, results, canaries, [], [], [str(e)], t_start, pspec, units)
-        sys.exit(2)
+    with cf.ThreadPoolExecutor(max_workers=5) as pool:
+        bf = pool.submit(bounded_search, pid, seed, a.tier) if not a.no_bounded else None
+        futs = {pool.submit(do_unit, u): u for u in verus_units}
+        # kani units run sequentially among themselves (shared target dir), concurrently with verus
+        def all_kani():
+            return [do_unit(u) for u in kani_units]
+        kf = pool.submit(all_kani)
+        for f in cf.as_completed(list(futs)):
+            u, r, c = f.result()
+            results[u] = r
+            if c:
+                canaries[u] = c
+        for u, r, c in kf.result():
+            results[u] = r
+        bounded = bf.result() if bf else {'status': 'not-run', 'fails': [], 'bounds': [], 'wall': 0.0, 'cmd': ''}
 
     # ---- collect obligations
     all_obl = []   # (unit, name, text, backend)
@@ -425,6 +440,8 @@ def main():
     if a.rebaseline:
         for u in units:
             r = results[u]
+            if r.get('broken'):
+                continue
             if r['kind'] == 'verus':
                 full = [o['name'] for o in r['meta']['obligations']]
             else:
@@ -438,6 +455,8 @@ def main():
     # ---- baseline comparison
     for u in units:
         r = results[u]
+        if r.get('broken'):
+            continue
         if r['kind'] == 'verus':
             have = set(o['name'] for o in r['meta']['obligations'])
         else:
@@ -465,36 +484,65 @@ def main():
     for full, k in known_hits:
         print('KNOWN-FINDING: property=%s %s — %s' % (pid, full, k.get('what', '')))
     viol_records = []
+    repo_head = subprocess.run(['git', '-C', REPO, 'rev-parse', 'HEAD'], capture_output=True, text=True).stdout.strip()
+    repo_dirty = subprocess.run(['git', '-C', REPO, 'status', '--porcelain'], capture_output=True, text=True).stdout.strip().split('\n')
+    bfails = list(bounded['fails'])
+    known_inputs = [k for k in known if k.get('property') == pid and k.get('status') == 'known' and k.get('input') is not None]
+    kept = []
+    for bfail in bfails:
+        kk = [k for k in known_inputs if k['input'] == bfail.get('input')]
+        if kk:
+            print('KNOWN-FINDING: property=%s bounded/%s %s — %s' % (pid, bfail.get('mode'), json.dumps(bfail.get('input')), kk[0].get('what', '')))
+        else:
+            kept.append(bfail)
+    bfails = kept
     for u, nme, errs in violations:
         full = '%s/%s' % (u, nme)
-        inp = replay_search(pid, u, nme, seed)
+        inp = bfails[0] if bfails else None
         rpath = os.path.join(ROOT, 'replays', '%s-%s.json' % (pid, sanitize(full)))
         rec = {'property': pid, 'obligation': full, 'unit': u, 'backend': 'kani+cbmc' if nme.startswith('kani/') else 'verus+z3',
                'obligation_text': next((t for (uu, n, t, _) in all_obl if uu == u and n == nme), ''),
                'verifier_output': [e['rendered'] or e['message'] for e in errs][:5],
                'source': [e['src'] for e in errs if e.get('src')][:5],
                'failing_input': inp,
+               'failing_input_found_by': 'bounded replay search against the real code (tools/replay.py)' if inp else None,
                'how_to_replay': './check %s --replay %s' % (pid, os.path.relpath(rpath, ROOT)),
-               'repo_head': subprocess.run(['git', '-C', REPO, 'rev-parse', 'HEAD'], capture_output=True, text=True).stdout.strip(),
-               'repo_dirty_files': subprocess.run(['git', '-C', REPO, 'status', '--porcelain'], capture_output=True, text=True).stdout.strip().split('\n')}
+               'repo_head': repo_head, 'repo_dirty_files': repo_dirty}
         with open(rpath, 'w') as f:
             json.dump(rec, f, indent=1)
         tail = '' if inp else ' no-failing-input-found'
         print('VIOLATION property=%s replay=%s obligation=%s%s' % (pid, rpath, full, tail))
         viol_records.append(rec)
         rc = 1
+    if not violations and bfails:
+        # no contract obligation failed (the defect is outside the functions under contract, or the verifier could
+        # not decide the changed code), but a concrete input run through the real code contradicts the specification
+        for bfail in bfails[:3]:
+            name = 'bounded/%s/%s' % (bfail.get('mode'), hashlib.sha256(json.dumps(bfail.get('input'), sort_keys=True).encode()).hexdigest()[:10])
+            rpath = os.path.join(ROOT, 'replays', '%s-%s.json' % (pid, sanitize(name)))
+            rec = {'property': pid, 'obligation': name, 'unit': None, 'backend': 'bounded replay (not a proof obligation)',
+                   'obligation_text': bfail.get('what', ''), 'verifier_output': ['undecided: ' + x for x in undecided][:5],
+                   'source': [], 'failing_input': bfail, 'failing_input_found_by': 'bounded replay search against the real code (tools/replay.py)',
+                   'how_to_replay': './check %s --replay %s' % (pid, os.path.relpath(rpath, ROOT)), 'repo_head': repo_head, 'repo_dirty_files': repo_dirty}
+            with open(rpath, 'w') as f:
+                json.dump(rec, f, indent=1)
+            print('VIOLATION property=%s replay=%s obligation=%s found-by=bounded-replay' % (pid, rpath, name))
+            viol_records.append(rec)
+        rc = 1
     if rc == 0 and undecided:
         for x in undecided:
             print('UNDECIDED property=%s %s' % (pid, x))
         rc = 2
-    write_evidence(pid, a.tier, seed, results, canaries, all_obl, failed, undecided, t_start, pspec, units, known_hits, viol_records)
+    if rc == 0 and bounded['status'] not in ('clean', 'not-run'):
+        print('NOTE property=%s bounded layer %s (does not affect the verdict of the proof obligations)' % (pid, bounded['status']))
+    write_evidence(pid, a.tier, seed, results, canaries, all_obl, failed, undecided, t_start, pspec, units, known_hits, viol_records, bounded)
     if rc == 0:
         print('OK property=%s tier=%s obligations=%d discharged=%d units=%s wall=%.1fs' % (
             pid, a.tier, len(all_obl), len(all_obl) - len(failed), ','.join(units), time.time() - t_start))
     sys.exit(rc)
 
 
-def write_evidence(pid, tier, seed, results, canaries, all_obl, failed, undecided, t_start, pspec, units, known_hits=(), viol=()):
+def write_evidence(pid, tier, seed, results, canaries, all_obl, failed, undecided, t_start, pspec, units, known_hits=(), viol=(), bounded=None):
     failed_names = set('%s/%s' % (u, n) for (u, n, _) in failed)
     fns = []
     transforms = set()
@@ -556,6 +604,7 @@ def write_evidence(pid, tier, seed, results, canaries, all_obl, failed, undecide
             'vacuity_canaries': {u: {'expected': len(c['expected']), 'refuted': len(c['refuted']), 'vacuous': c['vacuous']} for u, c in canaries.items()},
             'kani': {u: [{'harness': h['harness'], 'status': h['status'], 'checks': h.get('checks'), 'wall_s': round(h['wall'], 1), 'claim': h.get('text', '')} for h in results[u]['harnesses']] for u in units if results.get(u) and results[u]['kind'] == 'kani'},
             'undecided': undecided,
+            'bounded_layer': {'label': 'BOUNDED stand-in, never counted as proved: concrete inputs run through the real code against executable specifications', 'status': (bounded or {}).get('status'), 'bounds': (bounded or {}).get('bounds'), 'failing_inputs': (bounded or {}).get('fails'), 'cmd': (bounded or {}).get('cmd'), 'wall_s': round((bounded or {}).get('wall', 0.0), 1)},
             'known_findings_hit': [k for k, _ in known_hits],
             'violations': [v['obligation'] for v in viol],
             'samples': samples,
